@@ -6,6 +6,7 @@ set -u
 VROOT=${VROOT:-$(cd "$(dirname "$0")/.." && pwd)}
 PROP=$1; WT=$2; K=$3; shift 3
 CHECKS="$PROP $*"
+[ -n "${SEED_NOCHECK:-}" ] && CHECKS=""   # confirm and store only
 export GOFLAGS=-mod=mod GOPROXY=off GOSUMDB=off GOTOOLCHAIN=local
 D=$VROOT/seeded/$PROP-m$K
 mkdir -p $D
